@@ -232,11 +232,14 @@ def fam_retrier_states(tag):
     s.regall().down("t1").notify("l1").wait_state("t1", ["unreachable"], 1, giveup_bound_ms() + 1500)
     s.up("t1").notify("l2").delivered("t1").probe()
     out.append(s.done())
-    # failed: permanent subscription failure (the tower renews with a receipt that does not extend the subscription)
+    # failed: permanent subscription failure (the tower renews with a receipt that does not extend the subscription); a
+    # manual retry is accepted once the failed retrier is gone, fails the same way while the tower goes on like that, and
+    # delivers everything once the tower renews properly
     s = Sc("%s-rs-failed" % tag, 1, fam="retrier_states", covers=["notify@failed", "retry@failed"])
     s.regall().mode("t1", {"k": "sub_error"}).mode("t1", {"k": "accept", "ds": 0, "de": 0}, "reg").notify("l1")
-    s.wait_state("t1", ["subscription_error"], 1, 3000).sleep(300).retry("t1").notify("l2").probe()
-    s.mode("t1", ACCEPT).mode("t1", ACCEPT, "reg").sleep(1300).retry("t1").delivered("t1").probe()
+    s.step(op="wait_req", t="t1", count=3, timeout_ms=5000).sleep(300).retry("t1").notify("l2").probe()
+    s.sleep(1300).retry("t1").step(op="wait_req", t="t1", count=4, timeout_ms=5000).sleep(1500).probe()
+    s.mode("t1", ACCEPT).mode("t1", ACCEPT, "reg").retry("t1").delivered("t1").probe()
     out.append(s.done())
     # stopped / absent: manual retry on a reachable tower, on an unknown one, after delivery
     s = Sc("%s-rs-absent" % tag, 2, fam="retrier_states", covers=["retry@absent"])
@@ -725,7 +728,6 @@ def validate_many(names, sdir, wd, shard=6, par=10):
 ABORT_SITES = [
     (re.compile(r"net/http\.rs:\d+:\d+ .*(Result::unwrap|InvalidSignature|Err)"), "S14", ("C14", "C05")),
     (re.compile(r"wt_client\.rs:\d+"), "S15p", ("C05",)),
-    (re.compile(r"retrier\.rs:\d+:\d+ .*Option::unwrap"), "S21", ("C05",)),
 ]
 SECONDARY = re.compile(r"^poisoned:")   # lock().unwrap() on the poisoned mutex: consequence, not cause
 
